@@ -239,6 +239,43 @@ func (wm *warm) runProbe(tx []byte, spec hist.TxSpec, check, force bool, follow 
 		if k == 0 && inBlock != nil {
 			rc.Inject = map[string][][]byte{"after:BeginBlock": inBlock}
 		}
+		if cp, ok := probeCrash.Load(string(tx)); ok && k == 0 && tx != nil {
+			// the node is killed after Tendermint saved the probe's block and before the application committed
+			// it: the block is executed by the handshake replay of the next start
+			rc.Crash = cp.(string)
+			rc.Dump = false
+			if _, err := b.Block(rc); err == nil || !b.Dead {
+				out.Err = fmt.Errorf("crash point %s was not reached", rc.Crash)
+				return out
+			}
+			if err := b.Restart(); err != nil {
+				return died("restart-after-kill")
+			}
+			blk := &hist.Block{H: wm.h + 1, Prev: prev, Recipe: rc}
+			for _, c := range b.Boot.Calls {
+				switch c.M {
+				case "BeginBlock":
+					blk.Begin = c
+				case "EndBlock":
+					blk.End = c
+				case "Commit":
+					blk.Commit = c
+				case "DeliverTx":
+					out.Deliver = c
+					blk.Txs = append(blk.Txs, hist.TxResult{TxSpec: spec, Call: c})
+				}
+			}
+			d, err := b.Do(proto.Cmd{Op: "dump", Full: true})
+			if err != nil {
+				return died("dump-after-restart")
+			}
+			cur := hist.State{}.Apply(d.Dump, true)
+			blk.Cur = cur
+			out.States = append(out.States, cur)
+			out.Blocks = append(out.Blocks, blk)
+			prev = cur
+			continue
+		}
 		resp, err := b.Block(rc)
 		if err != nil {
 			if err == boxcli.ErrTimeout {
@@ -342,6 +379,10 @@ func (wm *warm) emptyStates(follow int) ([]hist.State, error) {
 }
 
 // ---------------------------------------------------------------- hostile payloads
+
+// probeCrash: probe transaction bytes -> call boundary of the probe's block at which the node is killed (the
+// block is then executed by the handshake replay of the restart).
+var probeCrash sync.Map
 
 // probePrime: probe transaction bytes -> a genuine transaction the node checks first (same process), so that
 // anything the node remembers from validating the genuine one is in place when the probe arrives.
@@ -574,6 +615,9 @@ func runProbes(r *verdict.Run, own, tier string) {
 					}
 					sp := hist.TxSpec{Kind: b.Kind, Bytes: m.bytes, Note: b.Note + " / " + m.name, Signers: verifiedSigners(m.bytes), Force: true}
 					probePrime.Store(string(m.bytes), b.Bytes)
+					if own == "C03" && len(jobs)%4 == 1 {
+						probeCrash.Store(string(m.bytes), []string{"before:Commit", "after:EndBlock"}[len(jobs)%2])
+					}
 					jobs = append(jobs, job{wm, hostile{Spec: sp, Kind: b.Kind, Field: "<signatures>", Trait: "forged=" + m.name}})
 				}
 			}
